@@ -536,12 +536,9 @@ def stream_recommend(ctx, drv, cli, ws, n):
                 if written:
                     problem = f"STDOUT mode wrote files {written}"
                 elif impl["stdout"] != expected["stdout"]:
-                    mb = BANNER.match(impl["stdout"])
-                    if mb and impl["stdout"][mb.end():] == expected["stdout"]:
-                        problem = "STDOUT mode: the program list is preceded by the 'Using database/pipeline' lines"
-                        sig = "C18:stdout-mode-banner-lines"
-                    else:
-                        problem = "STDOUT mode: stdout is not the sorted list of selected, not hidden programs"
+                    problem = "STDOUT mode: stdout is not the sorted list of selected, not hidden programs"
+                elif plan["messages_on_stderr"] and not BANNER.match(impl["stderr"]):
+                    problem = "STDOUT mode: the 'Using …' messages are not on stderr"
             else:
                 target = os.path.normpath(str((ws.root / plan["out"]) if not os.path.isabs(plan["out"]) else Path(plan["out"])))
                 if [os.path.normpath(w) for w in written] != [target]:
@@ -551,7 +548,7 @@ def stream_recommend(ctx, drv, cli, ws, n):
                 else:
                     banner = ("Using database '%s'.\n" % plan["db"] if plan["announced_db"] else "") + (
                         "Using an empty pipeline.\n" if plan["pipe"] is None else "Using pipeline '%s'.\n" % plan["pipe"])
-                    if not impl["stdout"].startswith(banner):
+                    if plan["messages_on_stderr"] or not impl["stdout"].startswith(banner):
                         problem = f"the announced database / pipeline differ from the plan: {impl['stdout'][:200]!r} vs {banner!r}"
         for w in written:
             Path(w).unlink()
